@@ -33,7 +33,7 @@ def run(ev, vd):
     def job(j):
         k, (mode, binp, topo) = j
         out = os.path.join(BUILD, "tmp", "term_%d.ndjson" % k)
-        rc, o, dt = conc.run_harness(binp, [out, ev.seed * 100 + k, tier(), mode], topo=topo, timeout=600)
+        rc, o, dt = conc.run_harness(binp, [out, ev.seed * 100 + k, tier(), mode], topo=topo, timeout=(1500 if thorough else 600))
         return j, out, rc, o
     results = conc.pmap(job, list(enumerate(jobs)), lambda j: j[1][0])
     paths = []
